@@ -87,7 +87,15 @@ def run(prop, tier, replay=None):
         else:
             # always keep the small ones (single-test documents), sample the rest
             rare = lambda v: v["sc"]["noshell"] or any(d["fault"] != "no" or any(t["dur"] > 0 for t in d["tests"]) for d in v["sc"]["docs"])
-            small = [v for v in allsc if sum(len(d["tests"]) for d in v["sc"]["docs"]) <= 1 or (prop in ("C20", "C05") and rare(v))]
+            # a detached test case followed by a test case that cuts the document short (family DetachedAndCut): always run
+            def detcut(v):
+                for d in v["sc"]["docs"]:
+                    ts = d["tests"]
+                    for i, t in enumerate(ts):
+                        if t["det"] and len(ts) == 3 and any(u["dur"] > 0 or u["beh"] == "signal" or u["code"] == 80 for u in ts[i + 1:]):
+                            return True
+                return False
+            small = [v for v in allsc if sum(len(d["tests"]) for d in v["sc"]["docs"]) <= 1 or (prop in ("C20", "C05") and rare(v)) or detcut(v) or v["sc"].get("compat")]
             rest = [v for v in allsc if v not in small]
             chosen = small + rnd.sample(rest, max(0, want - len(small)))
         cov["scenarios_enumerated"] = len(allsc)
